@@ -240,9 +240,16 @@ def run(ctx, rep, tier):
                   f"room accounting changed: `{rsrc[:400]}` - a delete under an if is not performed for every value of the outputs; an assignment that fills the buffer makes no room; "
                   "characters appended behind the delete fill it again")
         rep.check(ast.unparse(rb.body[-1]) == "return max(room, 0)", "C04.d5", RB, "room never goes below none", "the room behind a step is no longer clamped at zero: (state, 0) is never revisited")
-        rep.check(model.has(VF, "capacity = storage.effective_string_size() if storage is not None and storage.holds_a(OutputStorageType.STR) else 1 << 30"), "C04.d5", VF,
-                  "the room a delete makes is the usable size (terminator reserved)", "the capacity the room accounting starts from is not the usable size of the string: an assignment of "
+        # capacity: every assignment to `capacity` in the check; a string's is its usable size, a raw output's the size of its C type where known (F-129); "unbounded" only as the fallback
+        caps = [n for n in ast.walk(model.func(VF)) if isinstance(n, ast.Assign) and len(n.targets) == 1 and ast.unparse(n.targets[0]) == "capacity"]
+        vals = [ast.unparse(n.value) for n in caps]
+        str_ok = any(v == "storage.effective_string_size()" or v.startswith("storage.effective_string_size() if storage is not None and storage.holds_a(OutputStorageType.STR)") for v in vals)
+        rep.check(str_ok, "C04.d5", VF, "the room a delete makes is the usable size (terminator reserved)", "the capacity the room accounting starts from is not the usable size of the string: an assignment of "
                   "size-1 characters to a terminated string leaves no room, yet counts as making some")
+        raw_ok = any("_get_maxval_hint_for_raw_type(storage.raw_underlying)" in v for v in vals)
+        rep.check(raw_ok, "C04.d5", VF, "a raw output of a known C type has the capacity of that type",
+                  "raw outputs are counted as unbounded (2^30 bytes): after a `delete r` any number of appended characters still 'leave room' - `out raw{uint8_t} r; loop { try { r += /a+/; \"b\"; } "
+                  "catch (outofspace) { delete r; r += [1]; } }` is accepted and feed() spins on \"aa\" (the str[2] twin is refused)")
         rep.check(model.has(VF, "storage = overflowing[0].into_storage if overflowing and all((append.into_storage is overflowing[0].into_storage for append in overflowing)) else None"), "C04.d5", VF,
                   "room is only accounted for one buffer: the one every overflowing append of the transition writes", "the buffer the room accounting follows changed")
         rep.check(model.has(AUX, "if real_target and (not steps) and overflowing and (room == 0):\n    for append in (sub for action in real_target.actions for sub in action.all_subactions() if isinstance(sub, AppendTo) and sub.into_storage is storage):\n"
